@@ -107,6 +107,17 @@ def run(chk):
             variants.append(("%s:bytes:%d" % (bname, k), bytes(b)))
     # self-including file and mutual includes
     variants.append(("selfinclude", b"letter a 1\ninclude SELF\n"))
+    # faults that every file compiles with but that the finalisation of the table rejects (the table then sits in the cache:
+    # every later lookup has to reject it again, with a message)
+    fin = {
+        "based_on_itself": "base uppercase b b\n",
+        "base_cycle": "lowercase x 1346\nlowercase y 13456\nbase uppercase x y\nbase uppercase y x\n",
+        "base_has_the_mode_attribute": "uppercase A 17\nlowercase a 1\nbase uppercase a A\n",
+        "base_chain_back_to_start": "lowercase p 1234\nlowercase q 12345\nlowercase r 1235\nbase uppercase p q\nbase uppercase q r\nbase uppercase r p\n",
+    }
+    for bname, text in bases[:2] + [("minimal", "space \\s 0\nletter a 1\nletter b 12\n")]:
+        for fname, extra in fin.items():
+            variants.append(("%s:finalize:%s" % (bname, fname), (text.rstrip("\n") + "\n" + extra).encode("latin-1", "replace")))
     batch = 40
     for b0 in range(0, len(variants), batch):
         chunk = variants[b0:b0 + batch]
@@ -153,7 +164,7 @@ def run(chk):
             ref = sig(g1)
     shutil.rmtree(work, ignore_errors=True)
     chk.cov["rule"] = ("fault enumeration: %d corruptions x every (quick: 40 sampled) rule line of %d valid tables (a kitchen-sink table with ~70 opcode "
-                       "kinds, a generated multipass table, shipped files) + 12 whole-file faults + byte-level mutations + self-include; each "
+                       "kinds, a generated multipass table, shipped files) + 12 whole-file faults + byte-level mutations + self-include + 4 faults that only the finalisation of the table rejects; each "
                        "variant compiled twice between two uses of a known-good table in one process (ASan+UBSan+LSan, watchdog); distinct = fault"
                        % (len(LINE_CORRUPTIONS), len(bases)))
     chk.cov["gen_status"] = gen
